@@ -355,6 +355,12 @@ def innermost_repo_frame(section):
     return found or "?"
 
 
+def cut_stack(frame):
+    """True for a shared helper's frame that came without its caller: the race detector had kept only the innermost
+    frame of that (previous) access, so the report cannot say on whose behalf the helper ran."""
+    return any(re.search(h, frame) for h in HELPER_FRAMES)
+
+
 def race_pair(block):
     # a report has two access sections ("Read at/Write at ... by goroutine" and "Previous read/write at ...")
     parts = re.split(r"\n(?=Previous (?:read|write) at |Goroutine \d+ \()", block)
